@@ -289,6 +289,35 @@ pub fn dump(tier: &str, seed: u64) -> (String, String) {
             settings,
         ));
     }
+    // 8 and 20 hours of silence (> 2^16 resp. > 2^17 consecutive zero strain sections; still inside
+    // check_suspicion's one-day limit): the exported strain vectors must keep every section
+    for mode in 0..4u8 {
+        for gap_h in [8.0f64, 20.0] {
+            let mut grng = Rng::new(0x6A9 ^ u64::from(mode) ^ (gap_h as u64) << 8);
+            let mut cfg = GenCfg::small(mode);
+            cfg.max_objects = 6;
+            let mut spec = random_map(&mut grng, &cfg);
+            for _ in 0..20 {
+                if spec.objects.len() >= 2 {
+                    break;
+                }
+                spec = random_map(&mut grng, &cfg);
+            }
+            if spec.objects.len() < 2 {
+                continue;
+            }
+            let k = spec.objects.len() / 2;
+            let shift = gap_h * 3_600_000.0;
+            for o in spec.objects.iter_mut().skip(k) {
+                o.time += shift;
+                match &mut o.kind {
+                    crate::mapgen::ObjKind::Spinner { end } | crate::mapgen::ObjKind::Hold { end } => *end += shift,
+                    _ => {}
+                }
+            }
+            cases.push((format!("gap{gap_h}h-{}-{}", mode_name(mode), spec.kinds()), mode, spec.render(), Settings::default()));
+        }
+    }
     for (mode, text) in resource_maps() {
         for target in 0..4u8 {
             if target != mode && mode != 0 {
